@@ -1,6 +1,7 @@
 (* C06 - rescaling redistributes checkpointed state completely and exclusively. Statements only. *)
 From Coq Require Import List NArith Sorting.Permutation Sorting.Sorted.
 From RV Require Import Model.AssignRanges Model.Rescale Proofs.C06_Assign Proofs.C06_Rescale.
+From RV Require Import Proofs.C07_Sorted Proofs.C18_Layout Proofs.C06_Clean Proofs.C06_Search.
 Import ListNotations.
 Open Scope N_scope.
 
@@ -62,12 +63,7 @@ Print Assumptions rescale_exact_refuted.
    entry is numbered above every table, and the write counter continues above every loaded table, so that later writes
    win every merge by sequence number.  Together with assign_exact (the handles are exactly the overlapping old
    checkpoints) this is the part of rescale_exact that holds for every input.
-   MISSING for the full statement on clean inputs: that the level search of the faithful read path (select_level:
-   binary search + forward scan) returns every table holding the prefix when the tables of a level have pairwise
-   non-meeting key ranges and are sorted by start key (the composite of clean documents after the D21 repair), and
-   that per-key newest-sequence-number merging then equals the old owner's read.  Both are checked on every run by
-   the correspondence (code 22: faithful model vs implementation; codes 100/101: implementation vs the map of the
-   handler's own writes) but not proved. *)
+   The step from here to "reads exactly the old owner's state" on clean inputs is rescale_exact_clean below. *)
 Theorem rescale_exact_partial : forall sorted own d rest st,
   restore sorted own (d :: rest) = Some st ->
   Permutation (concat (s_levels st)) (flat_map tables_of (d :: rest)) /\
@@ -77,6 +73,66 @@ Theorem rescale_exact_partial : forall sorted own d rest st,
   (forall t, In t (concat (s_levels st)) -> t_endseq t <= s_seq st).
 Proof. exact restore_spec. Qed.
 Print Assumptions rescale_exact_partial.
+
+(* The level search of AllTablesForPrefix (slices.BinarySearchFunc with RangePrefixCompare, then the forward scan while
+   RangeContainsPrefix) on a level that is a chain of disjoint key ranges returns every table that holds an entry with
+   the prefix. *)
+Theorem level_search_complete : forall lvl p t e,
+  level_ok lvl -> In t lvl -> In e (t_entries t) -> is_prefix p (e_key e) = true -> In t (select_level lvl p).
+Proof. exact select_complete_proved. Qed.
+Print Assumptions level_search_complete.
+
+(* The composite level list that LoadCheckpointList + the D21 repair build from CLEAN documents, handles in ANY order,
+   is a valid layout for the read path: every table covers its entries, every level below L0 is a chain of pairwise
+   disjoint key ranges in key order.  docwf (Proofs/C06_Clean.v) = the clean class: every table / WAL entry of the
+   checkpoint lies in the checkpoint's key-group range (doc_clean), table ranges cover their entries, end-sequence
+   numbers bound the entries, the checkpoint's own levels below L0 are chains; pairdisj = the handles' ranges are
+   pairwise disjoint (any selection from a permutation of keyGroupRanges). *)
+Theorem composite_of_clean_is_valid : forall (hs : list (kgrange * ckdoc)) d rest c,
+  map snd hs = d :: rest -> merge_into d rest = Some c ->
+  pairdisj (map fst hs) -> (forall rd, In rd hs -> docwf rd) ->
+  levels_ok (level_list true (d_levels c)).
+Proof. exact composite_levels_ok. Qed.
+Print Assumptions composite_of_clean_is_valid.
+
+(* rescale_exact_clean: for EVERY key-group count, M, N, EVERY order of the recorded checkpoints, every new operator i
+   and every prefix p whose keys belong to old operator j and to new operator i (a subject's state prefix, a key group's
+   timer prefix): on CLEAN inputs, what new operator i's restored database returns for ScanPrefix(p) is exactly what
+   old operator j's own restore of its checkpoint returns - the latest value of every entry and every pending timer,
+   no deleted one, nothing else.  LLInv (trl dj) is c07c18's layout invariant (Proofs/C18_Layout.v) of the old owner's
+   level list, translated entry by entry (it holds of every layout a database reaches: Props/C18.v
+   reachable_layouts_valid); it provides "one version per key and sequence number".  The per-key merge of
+   Model/Rescale.v is tied to c07c18's [Mx] characterisation ("per key the greatest sequence number").
+   Not claimed: a direct ScanPrefix of a prefix the new operator does NOT own may show entries of shared tables - the
+   operator never issues one (events are routed to owners: C05; timers are loaded per owned key group); its memtable
+   holds nothing foreign (rescale_exact_partial).  The class outside docwf is rescale_exact_refuted (D22). *)
+Theorem rescale_exact_clean : forall count n recorded i j rj dj p st stj,
+  pairdisj (map fst recorded) -> (forall rd, In rd recorded -> docwf rd) ->
+  (i < N.to_nat n)%nat -> nth_error recorded j = Some (rj, dj) -> LLInv (trl dj) ->
+  (forall k, is_prefix p k = true -> key_in rj k = true /\ key_in (nth i (kg_ranges count n) (0, 0)) k = true) ->
+  restore_new true count n recorded i = Some st -> restore true rj [dj] = Some stj ->
+  scan_prefix st p = scan_prefix stj p.
+Proof. exact rescale_exact_clean_proved. Qed.
+Print Assumptions rescale_exact_clean.
+
+(* later writes: the entry a Put/Delete adds to the memtable (numbered above everything loaded, rescale_exact_partial)
+   is what the merged view returns for its key *)
+Theorem later_write_visible : forall p m (Tb : entry -> Prop) R new,
+  Mx (fun x => exists e, x = tr e /\ is_prefix p (e_key e) = true /\ (In e (new :: m) \/ Tb e)) R ->
+  uniq (fun x => exists e, x = tr e /\ is_prefix p (e_key e) = true /\ (In e (new :: m) \/ Tb e)) ->
+  decr (new :: m) -> (forall e e', In e (new :: m) -> Tb e' -> e_seq e' < e_seq e) ->
+  is_prefix p (e_key new) = true -> LsmBase.tbl_get (e_key new) R = Some (tr new).
+Proof. exact write_visible. Qed.
+Print Assumptions later_write_visible.
+
+(* non-vacuity: all hypotheses of rescale_exact_clean hold of a clean scale-in with permuted acknowledgements, and the
+   conclusion is obtained from the theorem *)
+Example rescale_exact_clean_instance :
+  pairdisj (map fst d21_recorded) /\ (forall rd, In rd d21_recorded -> docwf rd) /\ LLInv (trl docA) /\
+  (forall k, is_prefix [0;0] k = true -> key_in (0, 1) k = true /\ key_in (nth 0 (kg_ranges 2 1) (0, 0)) k = true) /\
+  exists st stA, restore_new true 2 1 d21_recorded 0 = Some st /\ restore true (0, 1) [docA] = Some stA /\
+                 scan_prefix st [0;0] = scan_prefix stA [0;0] /\ scan_prefix stA [0;0] = [(kA1, 11); (kA2, 12)].
+Proof. exact clean_instance. Qed.
 
 (* non-vacuity / samples: a clean scale-in with permuted acknowledgements reads everything (after the D21 repair) *)
 Example rescale_clean_sample :
